@@ -114,6 +114,29 @@ def check(rep, tier, seed):
     for l, a in zip(lines, impl_d):
         if a == "PANIC" and "push" not in l and "pop" not in l and bad is None:
             bad = (l, a)
+    # the convenience entry points (serialize_to_byte_vec: Vec<u8> sink, serialize_to_bytes: BytesMut sink) over a
+    # HISTORY of calls in one process, failing encodes (unsupported characters deep inside the value) interleaved with
+    # successful ones: both must give the same bytes whatever was encoded - or failed to encode - before
+    from .. import gencases as G
+    from .. import rtfamily as R
+    erng = C.rng_for(seed, "C15e")
+    ecases = []
+    for _ in range(1500 if tier == "quick" else 40000):
+        t = G.gen_type(erng, erng.choice([1, 2, 3]))
+        if erng.random() < 0.35:
+            t = ("tup", [G.P("u8"), ("seq", "vec", 0, G.P("char")), t])
+            v = f"(0 n{erng.randrange(256)} (0 n97 n128512) {G.gen_value(erng, t[1][2])})"      # fails after some bytes
+        else:
+            v = G.gen_value(erng, t)
+        ecases.append(R.mk(None, t, v, "-", "enc"))
+    elines = [C.codec_line(c) for c in ecases]
+    ep = C.os.path.join(wd, "entry.cases")
+    C.write_lines(ep, ["E -"] + elines)          # ONE process: the history matters
+    eout = [l for l in C.run([harness, "codec", ep], timeout=900).stdout.splitlines() if l != "env"]
+    for l, a in zip(elines, eout):
+        if a.startswith("entry-points-differ") and bad is None:
+            bad = (l, a)
+    rep.coverage["entry_point_history_cases"] = len(elines)
     C.proof_coverage(rep, ob, "C15")
     rep.coverage.update({
         "evaluations": 3 * len(lines), "distinct_nontrivial": len(set(lines)),
